@@ -573,6 +573,9 @@ class LoopMixin:
         for g_, t_ in cc.ghost_params.items():
             # a universally quantified ghost parameter of the callee is instantiated with the caller's ghost of the same name
             locs[g_] = run.ghost[g_] if g_ in run.ghost else self.fresh(parse_type(t_), run.fresh_name(f"{g_}@{qual}"))
+        # callee ghosts the caller does not share: a clause about an arbitrary value unrelated to anything in the caller tells it nothing, so such
+        # clauses are only assumed in the explicit instance passes below (weaker, sound; avoids case splits on keys nobody asks about)
+        unshared = {g_ for g_ in cc.ghost_params if g_ not in run.ghost}
         sframe = E.Frame("<spec>", ci, dict(locs), None, "callee-spec")
         for i, ex in enumerate(cc.requires):
             self.ctx.oblige(self, "call-pre", f"{qual}#{i}", V.eval_bool(self, ex, sframe), "", False, text=ex)
@@ -641,6 +644,8 @@ class LoopMixin:
             run.calls.append({"name": qual, "outcome": "return", "value": result, "args": list(args), "contract": True})
             extra = {"result": result, "exc": NONE}
             for lbl, ex in list(cc.ensures.items()) + list(cc.always.items()):
+                if unshared and any(isinstance(n_, ast.Name) and n_.id in unshared for n_ in ast.walk(V.parse_clause(ex))):
+                    continue
                 try:
                     self.assume_clause(V.parse_clause(ex), sframe, extra)
                 except E.PyExc as pe_:
